@@ -914,3 +914,29 @@ def r15_empty_image_not_addressed_directly(ck, P, rid='C04-R15'):
             ck.violation(R, f.name, 'empty image keeps NO_ACCESSORS (%s == 0)' % dim, '%s can store the flags of a bits image whose %s is 0 without having cleared FAST_PATH_NO_ACCESSORS: the scaled and covering fast paths then address pixels of an image that has none (the 0-wide source of a scaled bilinear composite writes one pixel past the destination span and reads src[0] / src[-1])' % (f.name, dim), '%s:%d' % (f.unit.name, f.line))
         else:
             ck.ok(R, where, 'FAST_PATH_NO_ACCESSORS cleared on every path')
+
+
+def r16_translation_offset_in_wide_type(ck, P, rid='C04-R16'):
+    """T-WID: a transform's matrix elements are arbitrary 16.16 values (analyze_extent constrains the *sample positions*, not the
+    elements); code that turns an element into an integer coordinate by its own arithmetic, outside pixman_transform_point*, must add its
+    rounding offset in a type wider than the element."""
+    R = ck.rule(rid, 'every addition of a non-zero constant to an element loaded from a pixman_transform_t matrix is performed in 64 bits (the element is widened first): in 32 bits a translation of 32767.5 or more plus the rounding offset 0x7fff wraps negative, although analyze_extent accepted the request because every sample lies inside the source, and the rotate fast paths address the source 65536 pixels before the row', floor=12)
+    n = 0
+    for f in P.functions():
+        for x in f.insts():
+            if x.op not in ('add', 'sub'):
+                continue
+            for i, a in enumerate(x.a):
+                if a[0] != 'c' or int(a[1]) == 0:
+                    continue
+                y = f.v(f.strip_casts(x.a[1 - i]))
+                if y is None or y.op != 'load' or not (f.last_field(f.path(y.a[0])) or '').startswith('pixman_transform.matrix'):
+                    continue
+                n += 1; ck.saw(f)
+                where = '%s: %s %d at %s' % (f.name, x.op, int(a[1]), x.loc())
+                if x.ty == 'i64':
+                    ck.ok(R, where, 'in 64 bits')
+                else:
+                    ck.violation(R, f.name, 'offset added to a matrix element', '%s adds the constant %d to an element of the transform matrix in %s: the element may be anywhere in the 16.16 range (a translation of 32767.5 is accepted when the samples lie inside the source), the sum wraps, and the coordinate computed from it addresses memory far outside the image' % (f.name, int(a[1]), x.ty), x.loc())
+    if n == 0:
+        raise AnalysisBroken('%s: no constant added to a transform matrix element anywhere' % rid)
